@@ -1032,11 +1032,125 @@ fn run_store(ctx: &mut Ctx) -> String {
 
 // =================================================================================================
 
+// =================================================================================================
+// Part (d): the address that was dialed is the address that is re-scored — on the real TCP transport
+// =================================================================================================
+
+/// Two real TCP nodes. The dialer knows the listener under one address of each name-based shape the TCP transport
+/// resolves (`/dns4/localhost`, `/dns/localhost`, and the plain `/ip4` form as control) and dials it by peer id. After
+/// the connection is up, the peer's address book must hold exactly the offered address, with the success score, and no
+/// address nobody offered (the transport reports the address it connected to back to the manager; it has to be the
+/// shape it was given).
+fn dialed_address_is_the_one_rescored_on_real_tcp(ctx: &mut Ctx) {
+    use crate::env::simnet::{NodeCmd, World};
+    for shape in ["ip4", "dns4", "dns"] {
+        let result = std::thread::spawn(move || -> Result<String, (String, String)> {
+            let rt = crate::env::driver::runtime_io(4);
+            let r = catch_unwind(AssertUnwindSafe(|| {
+                rt.block_on(async {
+                    let (_park_tx, park_rx) = std::sync::mpsc::channel::<()>();
+                    let _parked = tokio::task::spawn_blocking(move || {
+                        let _ = park_rx.recv();
+                    });
+                    let mut w = World::new();
+                    let mut handles = Vec::new();
+                    let mut mk = || {
+                        let (m, h) = crate::env::node::Monitor::new("/verif/x/1");
+                        handles.push(h);
+                        ConfigBuilder::new().with_user_protocol(m).with_keep_alive_timeout(std::time::Duration::from_secs(100_000))
+                    };
+                    let l = w.add_tcp_node(71, mk()).expect("tcp node");
+                    let r = w.add_tcp_node(72, mk()).expect("tcp node");
+                    async fn settle(w: &mut World) {
+                        loop {
+                            w.run_to_quiescence(1_000_000);
+                            if !crate::mc::e2::settle_io(w).await {
+                                break;
+                            }
+                        }
+                    }
+                    settle(&mut w).await;
+                    let peer_r = w.nodes[r].peer;
+                    let port = w.nodes[r].address.iter().find_map(|p| if let Protocol::Tcp(port) = p { Some(port) } else { None }).expect("tcp port");
+                    let offered: Multiaddr = match shape {
+                        "ip4" => format!("/ip4/127.0.0.1/tcp/{port}"),
+                        "dns4" => format!("/dns4/localhost/tcp/{port}"),
+                        _ => format!("/dns/localhost/tcp/{port}"),
+                    }
+                    .parse::<Multiaddr>()
+                    .unwrap()
+                    .with(Protocol::P2p(peer_r.into()));
+                    let _ = w.nodes[l].cmd.send(NodeCmd::AddKnown(peer_r, offered.clone()));
+                    settle(&mut w).await;
+                    let _ = w.nodes[l].cmd.send(NodeCmd::Dial(peer_r));
+                    // name resolution runs on the resolver's own tasks: give it (real) time, then the handshake
+                    for _ in 0..40 {
+                        settle(&mut w).await;
+                        if w.nodes[l].log.lock().iter().any(|e| matches!(e, crate::env::simnet::NodeLog::Event(s) if s.starts_with("ConnectionEstablished"))) {
+                            break;
+                        }
+                        tokio::time::advance(std::time::Duration::from_millis(5)).await;
+                        std::thread::sleep(std::time::Duration::from_millis(5));
+                    }
+                    settle(&mut w).await;
+                    let slot = std::sync::Arc::new(parking_lot::Mutex::new(None));
+                    let _ = w.nodes[l].cmd.send(NodeCmd::Snapshot(slot.clone()));
+                    settle(&mut w).await;
+                    let snap: ManagerSnapshot = slot.lock().take().ok_or(("machinery/no-snapshot".to_string(), "the node did not answer the snapshot command".to_string()))?;
+                    let log: Vec<String> = w.nodes[l].log.lock().iter().map(|e| format!("{e:?}").chars().take(120).collect()).collect();
+                    let established = log.iter().any(|s| s.contains("ConnectionEstablished"));
+                    let book = snap.peers.iter().find(|p| p.peer == peer_r).map(|p| p.address_book.clone()).unwrap_or_default();
+                    let desc = format!("offered {offered}; established={established}; address book of the peer {book:?}; node log {log:?}");
+                    if !established {
+                        if shape == "ip4" {
+                            return Err(("machinery/named-address-setup".to_string(), format!("the control dial did not connect; {desc}")));
+                        }
+                        // the name could not be resolved in this sandbox: nothing to judge
+                        return Ok(format!("SKIPPED (no connection): {desc}"));
+                    }
+                    for (a, _) in &book {
+                        if *a != offered {
+                            return Err(("store/address-nobody-offered-after-successful-dial".to_string(), format!("the book holds {a}, which nobody offered; {desc}")));
+                        }
+                    }
+                    match book.iter().find(|(a, _)| *a == offered) {
+                        Some((_, s)) if *s >= scores::CONNECTION_ESTABLISHED => Ok(desc),
+                        other => Err(("store/dialed-address-not-rescored-after-successful-dial".to_string(), format!("the offered address has {other:?} after the successful dial; {desc}"))),
+                    }
+                })
+            }));
+            match r {
+                Ok(x) => x,
+                Err(_) => {
+                    let msg = e1::take_panic();
+                    Err((format!("panic/{}", e1::panic_site(&msg)), format!("panic in the named-address TCP scenario ({shape}): {msg}")))
+                }
+            }
+        })
+        .join();
+        let replay = json!({"kind": "dialed-address-rescored-on-real-tcp", "shape": shape});
+        match result {
+            Ok(Ok(desc)) => {
+                ctx.cov_add("evaluations", 1);
+                if desc.starts_with("SKIPPED") {
+                    ctx.cov_add("named_address_scenarios_skipped_name_not_resolvable", 1);
+                } else {
+                    ctx.cov_add("named_address_scenarios_on_real_tcp", 1);
+                }
+            }
+            Ok(Err((sig, what))) if sig.starts_with("machinery/") => ctx.machinery_error(format!("{sig}: {what}")),
+            Ok(Err((sig, what))) => ctx.violation(Violation { signature: sig, what, replay }),
+            Err(_) => ctx.machinery_error("named-address TCP scenario: harness thread panicked outside the guarded region"),
+        }
+    }
+}
+
 pub fn run(ctx: &mut Ctx) {
     super::manager::run_filtered(ctx, "c10");
     let manager_rule = ctx.coverage.get("rule").and_then(|v| v.as_str()).unwrap_or("").to_string();
     let shapes_rule = run_shapes(ctx);
     let store_rule = run_store(ctx);
+    dialed_address_is_the_one_rescored_on_real_tcp(ctx);
     ctx.cov("rule", format!("(c) {manager_rule}; {shapes_rule}; {store_rule}"));
     ctx.assume("only the TCP transport is enabled (the scripted transport registers as SupportedTransport::Tcp; the websocket feature is off), so 'parsed and dialed by an enabled transport' is judged by TcpAddress::multiaddr_to_socket_address accepting the stored address and extracting the owning peer");
     ctx.assume("'one of the node's own listen addresses' is judged by exact equality of the first two components (ip, tcp port) with a configured listen address; litep2p's broader loopback / unspecified equivalences are accepted but not demanded");
